@@ -104,6 +104,14 @@ def run(ctx):
             got = outcome(encodeutils.safe_encode, payload, incoming=inc, encoding=enc)
             if not matches(got, ref['encode'], payload):
                 report('safe_encode-bytes', 'safe_encode(%r, incoming=%r, encoding=%r)' % (payload, inc, enc), got, ref['encode'], c)
+        elif k == 'transpol':
+            payload = bytes(ref['payload'])
+            enc = spell(c['enc'], rnd)
+            got = outcome(encodeutils.safe_encode, payload, incoming=spell('utf-8', rnd), encoding=enc, errors=c['pol'])
+            n += 1
+            if not matches(got, ref['encode'], payload):
+                report('safe_encode-bytes-policy', 'safe_encode(%r, incoming=utf-8, encoding=%r, errors=%r)' % (payload, enc, c['pol']),
+                       got, ref['encode'], c)
         elif k == 'decpol':
             if ref.get('skip'):
                 continue
@@ -135,6 +143,7 @@ def run(ctx):
     import sys
     saved_stdin = sys.stdin
     idn = 0
+    _rec.paused = _rec2.paused = True      # these answers depend on sys.stdin by contract: not part of the order replay
     try:
         for enc in ('utf-8', 'latin-1', 'ascii', 'cp1252', None):
             sys.stdin = io.TextIOWrapper(io.BytesIO(b''), encoding=enc) if enc else io.StringIO('')
@@ -144,6 +153,22 @@ def run(ctx):
                 if r[0] != 'ok' or type(r[1]) is not bytes or r[1] != raw:
                     ctx.violation({'kind': 'to_utf8-bytes-identity', 'stdin': str(enc)}, {'bytes': repr(raw), 'stdin_encoding': enc, 'observed': repr(r)},
                                   'to_utf8(%r) with sys.stdin.encoding=%s -> %s, specification: the same bytes' % (raw, enc, repr(r)[:80]))
+            # no `incoming` given: bytes are read in the encoding stdin has NOW (not the one it had at some earlier call),
+            # falling back to UTF-8 when that fails
+            eff = enc or sys.getdefaultencoding()
+            for raw in (b'caf\xe9', b'caf\xc3\xa9', b'abc', b'\x80'):
+                idn += 1
+                try:
+                    want_d = ('ok', raw.decode(eff))
+                except UnicodeDecodeError:
+                    try:
+                        want_d = ('ok', raw.decode('utf-8'))
+                    except UnicodeDecodeError:
+                        want_d = ('err', 'UnicodeDecodeError')
+                r = outcome(encodeutils.safe_decode, raw)
+                if r != want_d:
+                    ctx.violation({'kind': 'default-incoming', 'stdin': str(enc)}, {'bytes': repr(raw), 'stdin_encoding': enc, 'observed': repr(r)},
+                                  'safe_decode(%r) with sys.stdin.encoding=%s -> %s, specification %s' % (raw, enc, repr(r)[:80], want_d))
             for text in ('', 'abc', 'caf\xe9', '日本'):
                 idn += 1
                 r = outcome(encodeutils.safe_decode, text)
@@ -153,6 +178,7 @@ def run(ctx):
                                   'safe_decode / to_utf8 of %r with sys.stdin.encoding=%s -> %s / %s' % (text, enc, repr(r)[:60], repr(u)[:60]))
     finally:
         sys.stdin = saved_stdin
+        _rec.paused = _rec2.paused = False
     ctx.cov['evaluations'] += idn
     ctx.stage('identity-under-stdin-encodings', cases=idn)
     # table-driven encodings: branch contract + round trip through Python's codec (delegated)
